@@ -200,15 +200,15 @@ def run_tlc(sc, module, cfg, workers=None, simulate=None, depth=None, seed=None,
                     r.lines.append(json.loads(json.loads(ln)))
                 except Exception as e:  # noqa
                     raise MachineryError("cannot parse generator line: %r (%s)" % (ln[:200], e))
-    if "is violated" in p.stdout or "Error: Deadlock reached" in p.stdout:
-        m = re.search(r"Error: (.*(?:is violated|Deadlock reached).*)", p.stdout)
+    if "is violated" in p.stdout or "was violated" in p.stdout or "Error: Deadlock reached" in p.stdout:
+        m = re.search(r"Error: (.*(?:is violated|was violated|Deadlock reached).*)", p.stdout)
         r.violation = m.group(1) if m else "violated"
     finished = ("Model checking completed. No error has been found." in p.stdout
                 or (simulate is not None and r.violation is None and p.returncode == 0))
     r.ok = finished and r.violation is None
     if not r.ok and not (allow_violation and r.violation):
         raise MachineryError("TLC %s/%s did not pass (rc=%s):\n%s" %
-                             (module, cfg, p.returncode, p.stdout[-3000:]))
+                             (module, cfg, p.returncode, p.stdout[-6000:]))
     return r
 
 
@@ -219,8 +219,18 @@ def tlc_trace(sc, module, cfg, trace_path, timeout=1800, deque=True, extra_files
     prints `TRACE-REJECTED at <l>`."""
     d = _prep_spec_dir(sc, extra_files)
     shutil.copyfile(trace_path, os.path.join(d, "trace.ndjson"))
-    r = run_tlc(sc, module, cfg, workers=1, timeout=timeout, deque=deque,
-                allow_violation=True)
+    try:
+        r = run_tlc(sc, module, cfg, workers=1, timeout=timeout, deque=deque,
+                    allow_violation=True)
+    except MachineryError as e:
+        # a rejected trace makes the POSTCONDITION false: that is an outcome, not a machinery error
+        if "TRACE-REJECTED" in str(e):
+            r = TlcResult()
+            r.out = str(e)
+            r.ok = False
+            r.violation = "trace rejected"
+            return r
+        raise
     return r
 
 
